@@ -203,6 +203,36 @@ fn op_decode_opts(c: &Value, ev: &mut Map<String, Value>) -> Result<(), String> 
     Ok(())
 }
 
+/// C14: the same octets with single header bits toggled, all decoded with every check switched off:
+/// bits that are only looked at by a check must then not affect the result
+fn op_decode_bits(c: &Value, ev: &mut Map<String, Value>) -> Result<(), String> {
+    let input = json_bytes(&c["in"])?;
+    if input.len() < 2 {
+        ev.insert("variants".into(), json!([]));
+        return Ok(());
+    }
+    let cc = json!({"opts": [false, false, false], "entry": "validate"});
+    let mut variants = Vec::new();
+    for bit in -1i32..16 {
+        let mut b = input.clone();
+        if bit >= 0 {
+            let w = u16::from_be_bytes([b[0], b[1]]) ^ (1u16 << bit);
+            b[0..2].copy_from_slice(&w.to_be_bytes());
+        }
+        let o = guarded(|| {
+            let mut r = SliceReader::from(&b[..]);
+            decode_with(&mut r, &cc)
+        });
+        let (out, rem) = match o {
+            Ok((o, rem)) => (o, rem),
+            Err(p) => (p, json!(0)),
+        };
+        variants.push(json!({"bit": bit, "out": out, "rem": rem}));
+    }
+    ev.insert("variants".into(), Value::Array(variants));
+    Ok(())
+}
+
 /// decode(b) and decode(b ++ suffix) (C08)
 fn op_decode_suffix(c: &Value, ev: &mut Map<String, Value>) -> Result<(), String> {
     let input = json_bytes(&c["in"])?;
@@ -998,6 +1028,7 @@ pub fn run_op(c: &Value, ev: &mut Map<String, Value>) -> Result<(), String> {
         "decode_payload" => op_decode_payload(c, ev),
         "decode_seq" => op_decode_seq(c, ev),
         "decode_opts" => op_decode_opts(c, ev),
+        "decode_bits" => op_decode_bits(c, ev),
         "decode_suffix" => op_decode_suffix(c, ev),
         "avps_concat" => op_avps_concat(c, ev),
         "ctl_records" => op_ctl_records(c, ev),
